@@ -121,6 +121,38 @@ CHECKS = {
             'are checked for length.',
             'Parameters are branched to concrete values path by path (solver-driven enumeration of the ranges); the '
             'for-all-models length statement is carried by R in C01/C02/C04.', '6 C16'),
+    'C18': (TV, 'A', 'enumerated construction histories; per block, projection inclusion both ways between the formula built '
+                     'with shared objects and the one built from fresh objects (SMT, closure form); mismatch verdicts compared',
+            'Scenarios of 2-5 blocks sharing factor, constraint and block objects are built in every admissible order; after '
+            'all are built each block must have the same trial count and exactly the same sequences as its fresh twin, and '
+            'the real mismatch checker must give the same verdicts on solver-generated sequences and single-cell changes.',
+            'Histories are enumerated (listed scenarios x orders); the set equality per block is a solver verdict.', '6 C18'),
+    'C19': (OT, 'A', 'bounded exhaustive enumeration of call histories on real blocks; after each call object identity and the '
+                     'recompiled clause list are compared (solver-decided projection equality when they differ syntactically); '
+                     'final synthesis judged by the reference validator',
+            'All histories of length <=2 (plus 150 seeded / all of length 3) over 10 operations on 7 blocks (incl. a '
+            'continuous factor, a constrained weighted factor, a partial LatinSquare, Repeat, Nest): the block\'s design, '
+            'crossings, constraints and compiled formula are unchanged after every call, and a final synthesize_trials '
+            'returns the requested number of valid sequences with the same columns.',
+            'The quantifier over histories is enumeration; the formula comparison falls back to a solver query only when '
+            'the clause lists differ.', '6 C19'),
+    'C20': (OT, 'B+A', 'CrossHair symbolic execution of the real converters on experiments with unconstrained symbolic values '
+                       'and symbolic shape; CSV through an in-memory open() read back with the csv module; key sets of real sequences',
+            'experiments_to_tuples/dicts are confirmed over all paths to reproduce every value in design order for plain, '
+            'weight-desugared and continuous-factor blocks; save_experiments_csv round-trips a 7-value alphabet per cell; '
+            'every corpus design returns exactly the user-declared columns.',
+            'Bounded to 1-2 experiments, 1-3 trials; CSV 1-2 trials.', '6 C20'),
+    'C21': (OT, 'B', 'CrossHair symbolic execution of the real tabulate_experiments with symbolic level per cell and symbolic '
+                     'trial selection; independent parser of the captured stdout',
+            'For each shape (incl. colliding multi-word level names, the empty level, two experiments) every assignment of '
+            'levels to cells and every trial selection is explored; each printed row must carry the exact count and '
+            'percentage string and every combination must appear exactly once.',
+            'Bounded to <=3 trials/factors, 2 experiments; stdout captured.', '6 C21'),
+    'C22': (OT, 'B', 'CrossHair symbolic execution of the real continuous sampling loop with distributions stubbed by symbolic draws',
+            'block.sample_continuous is driven with symbolic integer draws and a symbolic window start: the result is the '
+            'accepted attempt, the ContinuousConstraint holds at every trial, derived and window factors see the same '
+            'trial / the preceding outputs with NaN exactly where undefined, cumulative distributions restart per attempt.',
+            'Integers stand for sampled reals (no float arithmetic in the library); at most 2 resampling attempts.', '6 C22'),
     'C17': (OT, 'A', 'solver-GENERATED testing of the real mismatch checker: z3 models of the reference (valid), z3 models '
                      'violating exactly one requirement group, and all single-cell perturbations judged by the reference validator',
             'For every corpus design the real sample_mismatch_experiment is run on z3-generated valid sequences (must report '
